@@ -964,6 +964,8 @@ class StopSequenceMonitor(Monitor):
         run.world.on_hook('send_state_event', self.on_state)
         self.closing = None
         self.tracker.listeners_start.append(self.on_start_request)
+        self.crashed_at = {}      # application -> time of the last crash of one of its processes (truth)
+        self.closing_since = {}   # (nick, inc) -> time of its first closing state
 
     def on_start_request(self, inst, req):
         # orderly restart / shutdown: once an instance has published RESTARTING / SHUTTING_DOWN everything is being
@@ -972,6 +974,12 @@ class StopSequenceMonitor(Monitor):
         self.count('start_requests_seen_by_the_closing_clause')
         state = self.final_states.get((inst.nick, inst.inc))
         if state in ('RESTARTING', 'SHUTTING_DOWN', 'FINAL'):
+            app_name = req['namespec'].split(':')[0]
+            if self.crashed_at.get(app_name, 0.0) >= self.closing_since.get((inst.nick, inst.inc), float('inf')):
+                # a process of that application crashed during the closing phase: the running failure strategy is
+                # another plan (FiniteStateMachine.on_process_state_event applies it in every state) - not judged here
+                self.count('start_requests_during_closing_after_a_crash_not_judged')
+                return
             self.violate('C09/start-request-during-closing', f"{inst.nick}, which has published {state}, asks "
                          f"{req['target_nick']} to start {req['namespec']} at vt={vt(self.run.world)}: the closing phase "
                          f"stops everything, in order, before the Supervisors are restarted / shut down",
@@ -983,6 +991,8 @@ class StopSequenceMonitor(Monitor):
 
     def on_state(self, inst, payload):
         self.final_states[(inst.nick, inst.inc)] = payload['fsm_statename']
+        if payload['fsm_statename'] in ('RESTARTING', 'SHUTTING_DOWN'):
+            self.closing_since.setdefault((inst.nick, inst.inc), self.run.world.now)
         if payload['fsm_statename'] in ('RESTARTING', 'SHUTTING_DOWN'):
             self.first_closing.setdefault((inst.nick, inst.inc), payload['fsm_statename'])
 
@@ -1101,6 +1111,8 @@ class StopSequenceMonitor(Monitor):
         return {n: self.tracker.truth.get((n, namespec)) for n in nicks}
 
     def on_event(self, ev):
+        if ev['k'] == 'truth' and (ev.get('state') == 200 or (ev.get('state') == 100 and not ev.get('expected'))):
+            self.crashed_at[ev['namespec'].split(':')[0]] = ev['t']
         if ev['k'] == 'stopping':
             # what the proxies of a stopping instance still had to deliver is dropped with them
             inst = self.run.world.instances.get(ev['inst'])
